@@ -38,11 +38,77 @@ class AsyncScriptedTransport(OnceFaultMixin, simdevice.AsyncScriptedTransport):
     pass
 
 
+class DialogDevice(SimDevice):
+    """SimDevice + interactive dialogues.  dialogs = {line: {"steps": [step, ...], "out": text, "abort_out": text}},
+    step = {"q": question text (printed without a newline after it, the answer is typed right behind it),
+            "info": text printed on its own line before the question, "hidden": the answer is not echoed,
+            "ask": False -> this software version does not ask this question, "accept": answers that continue (None: any)}.
+    After the last asked question (or at once when none is asked) the device prints `out` and its prompt again;
+    a refused answer prints `abort_out` and the prompt.  Whatever is typed after that is an ordinary line.
+    Written from the vendors' CLI behaviour (clear counters / reload / copy ... dialogues), independent of scrapli."""
+
+    def __init__(self, *a, dialogs=None, **kw):
+        super().__init__(*a, **kw)
+        self.dialogs = dialogs or {}
+        self.dlg = None                   # (spec, index of the question being asked)
+        self.dialog_trace = []            # what the dialogue engine did, for the observation
+
+    def _dlg_end(self, text):
+        self.dlg = None
+        self.dialog = None
+        self.dialog_trace.append("end")
+        body = text.encode("latin-1").replace(b"\n", self.nl)
+        self._emit(self.nl + (body + self.nl if body else b"") + self.prompt())
+
+    def _dlg_next(self, spec, i):
+        steps = spec.get("steps", [])
+        while i < len(steps) and not steps[i].get("ask", True):
+            self.dialog_trace.append("skip%d" % i)
+            i += 1
+        if i >= len(steps):
+            self._dlg_end(spec.get("out", ""))
+            return
+        st = steps[i]
+        self.dlg = (spec, i)
+        self.dialog = ("dialogue", 0) if st.get("hidden") else None      # not None: no echo (see SimDevice.feed)
+        self.dialog_trace.append("ask%d" % i)
+        info = st.get("info", "").encode("latin-1")
+        self._emit(self.nl + (info + self.nl if info else b"") + st["q"].encode("latin-1"))
+
+    def _return(self):
+        if self.dlg is None:
+            line = bytes(self.line).decode("latin-1").strip()
+            spec = self.dialogs.get(line)
+            if spec is None or self.dialog is not None or line in self._table():
+                super()._return()
+                return
+            raw = bytes(self.line)
+            self.line = bytearray()
+            self.log.append((self.mode, raw, b""))
+            self.dialog_trace.append("start")
+            self._dlg_next(spec, 0)
+            return
+        spec, i = self.dlg
+        st = spec["steps"][i]
+        raw = bytes(self.line)
+        self.line = bytearray()
+        if st.get("hidden"):
+            self.hidden_lines.append(raw)
+        else:
+            self.log.append((self.mode + "?%d" % i, raw, b""))
+        acc = st.get("accept")
+        if acc is not None and raw.decode("latin-1").strip() not in acc:
+            self.dialog_trace.append("refused%d" % i)
+            self._dlg_end(spec.get("abort_out", "% aborted"))
+            return
+        self._dlg_next(spec, i + 1)
+
+
 def build(sc, stack):
     d = sc["device"]
     kind = sc["kind"]
     plat = "cisco_iosxe" if kind == "network" else kind
-    dev = SimDevice(plat, host=d.get("host", "router1"), user=d.get("user", "admin"), login_mode=d.get("login_mode"),
+    dev = DialogDevice(plat, dialogs=d.get("dialogs"), host=d.get("host", "router1"), user=d.get("user", "admin"), login_mode=d.get("login_mode"),
                     outputs={k: v.encode("latin-1") for k, v in d.get("outputs", {}).items()},
                     secret=d.get("secret"), nl=d.get("nl", "\r\n").encode(), banner=d.get("banner", ""),
                     refuse=[tuple(x) for x in d.get("refuse", [])], ignore=[tuple(x) for x in d.get("ignore", [])],
@@ -107,7 +173,7 @@ def _call_args(drv, op):
     if name == "channel_send_input":
         return drv.channel.send_input, [a[0]], dict(a[1]) if len(a) > 1 else {}
     if name == "channel_send_inputs_interact":
-        return drv.channel.send_inputs_interact, [[tuple(x) for x in a[0]]], {}
+        return drv.channel.send_inputs_interact, [[tuple(x) for x in a[0]]], dict(a[1]) if len(a) > 1 else {}
     raise ValueError("unknown op %r" % (name,))
 
 
@@ -129,6 +195,7 @@ def _finish(dev, drv, obs):
         "reads": b"".join(t.reads).hex(),
         "priv": getattr(getattr(drv, "_current_priv_level", None), "name", None),
         "device_mode": dev.mode,
+        "dialogue": list(dev.dialog_trace) + (["open"] if dev.dlg is not None else []),
         "alive": bool(drv.isalive()),
     }
 
@@ -222,6 +289,166 @@ def gen_policy(rng):
     return ["random", rng.randint(0, 10 ** 6), rng.choice([3, 7, 20])]
 
 
+# ------------------------------------------------------------------------------------------------
+# interactive dialogues (send_interactive / send_inputs_interact)
+# ------------------------------------------------------------------------------------------------
+# (question text, the response a client would wait for, hidden answer)
+QUESTIONS = [
+    ("Clear all counters? [confirm]", "[confirm]", False), ("Proceed with reload? [confirm]", "[confirm]", False),
+    ("Clear logging buffer [confirm]", "[confirm]", False), ("Delete flash:/x.bin? [confirm]", "[confirm]", False),
+    ("Continue? (y/n) ", "(y/n)", False), ("Are you sure? (y/n) ", "(y/n)", False),
+    ("Source filename []?", "Source filename []?", False), ("Address or name of remote host []?", "[]?", False),
+    ("Destination filename [startup-config]?", "Destination filename", False),
+    ("Password:", "Password:", True), ("Enter passphrase: ", "passphrase:", True), ("Old password: ", "assword:", True),
+]
+TRIGGERS = ["clear counters", "reload", "copy flash: scp:", "delete flash:/x.bin", "clear logging", "request system reboot",
+            "write erase"]
+ANSWERS = ["y", "y", "", "yes", "n", "test1.txt", "172.31.254.100", "s3cr3t"]
+DIALOG_OUT = ["", "", "done", "[OK]", "Erase of nvram: complete", "% Unknown command", "1 file(s) copied [confirm] no more"]
+ANY_PROMPT = r"^[a-z0-9.\-_@()/:{}\[\]]{1,63}[#>$%]\s?$"      # what a caller would pass as "we are back at a prompt"
+PROMPT_TAIL = {"juniper_junos": ">"}
+
+
+def gen_dialog(rng):
+    """device side of a dialogue; the questions asked are independent of what the client expects"""
+    n = rng.choice([1, 2, 2, 3, 3, 4])
+    r = rng.random()
+    if r < 0.45:        # the same expected response several times in a row
+        tok = rng.choice(["[confirm]", "[confirm]", "(y/n)"])
+        pool = [q for q in QUESTIONS if q[1] == tok]
+        qs = [rng.choice(pool) for _ in range(n)]
+    elif r < 0.6:       # exactly the same question twice, then others
+        q = rng.choice(QUESTIONS)
+        qs = ([q, q] + [rng.choice(QUESTIONS) for _ in range(n)])[:max(n, 2)]
+    else:
+        qs = [rng.choice(QUESTIONS) for _ in range(n)]
+    steps = []
+    for i, (q, _tok, hid) in enumerate(qs):
+        st = {"q": q}
+        if hid:
+            st["hidden"] = True
+        if rng.random() > (0.9 if i == 0 else 0.6):
+            st["ask"] = False
+        if rng.random() < 0.15:
+            st["accept"] = ["y", "yes", ""]
+        if rng.random() < 0.15:
+            st["info"] = rng.choice(["Building configuration...", "System configuration has been modified.", "router1#show",
+                                     "this will [confirm] nothing"])
+        steps.append(st)
+    return {"steps": steps, "out": rng.choice(DIALOG_OUT), "abort_out": rng.choice(["% aborted", "", "Command aborted"])}, qs
+
+
+def gen_interactive(rng, kind, dev, channel_level=False):
+    """one interactive operation + the dialogue it talks to (added to the device description)"""
+    dialogs = dev.setdefault("dialogs", {})
+    free = [t for t in TRIGGERS if t not in dialogs and t not in dev.get("outputs", {})]
+    if not free:
+        return ["get_prompt"]
+    trig = rng.choice(free)
+    spec, qs = gen_dialog(rng)
+    dialogs[trig] = spec
+    tail = PROMPT_TAIL.get(kind, "#")
+    # client side: one event per question it believes the device asks, then the final answer
+    inputs = [trig] + [rng.choice(ANSWERS) for _ in qs]
+    hidden = [False] + [bool(q[2]) for q in qs]
+    expects = [q[1] for q in qs] + [rng.choice(["", "", tail, dev.get("host", "router1") + tail])]
+    r = rng.random()
+    if r < 0.06 and len(qs) > 1:          # the client knows fewer questions than the device asks
+        k = rng.randint(1, len(qs) - 1)
+        inputs, hidden, expects = inputs[:k + 1], hidden[:k + 1], expects[:k] + [expects[-1]]
+    elif r < 0.12:                        # the client expects one more question than the device has
+        inputs.append(rng.choice(ANSWERS))
+        hidden.append(False)
+        expects.insert(len(expects) - 1, rng.choice(QUESTIONS)[1])
+    events = []
+    for i, (inp, exp, hid) in enumerate(zip(inputs, expects, hidden)):
+        if rng.random() < 0.04:
+            hid = not hid                 # the caller is wrong about the echo
+        events.append([inp, exp] if (not hid and rng.random() < 0.3) else [inp, exp, hid])
+    kw = {}
+    r = rng.random()
+    if r < 0.8:
+        pats = [rng.choice([ANY_PROMPT, ANY_PROMPT, tail, "^" + dev.get("host", "router1").replace(".", "\\.") + "[#>]\\s?$"])]
+        if rng.random() < 0.3:            # a completion pattern that is already in an earlier event's output
+            pats.insert(rng.randint(0, 1), rng.choice([qs[0][1], trig.split()[0], "[confirm]", inputs[0]]))
+        if rng.random() < 0.2:
+            pats.append(rng.choice(["% aborted", "Command aborted", "[OK]", "done"]))
+        kw["interaction_complete_patterns"] = pats
+    elif r < 0.85:
+        kw["interaction_complete_patterns"] = []
+    if channel_level:
+        return ["channel_send_inputs_interact", events, kw]
+    if rng.random() < 0.15:
+        kw["failed_when_contains"] = rng.choice([["% aborted"], "Unknown", ["zzz"]])
+    return ["send_interactive", events, kw]
+
+
+# scenario families: what a scenario mostly consists of.  FN_FAMILY maps a paired function (the name behind the
+# class in the twin table) to the families whose scenarios reach it; c06.py searches those families first when the
+# twin-diff obligation of that function breaks.
+FAMILIES = ["interactive", "commands", "and_read", "prompt", "configs", "priv", "lifecycle"]
+FN_FAMILY = {
+    "send_inputs_interact": ["interactive", "priv"], "send_interactive": ["interactive"],
+    "_read_until_explicit_prompt": ["interactive", "priv"], "_read_until_input": ["interactive", "commands", "configs"],
+    "_read_until_prompt": ["commands", "prompt", "configs"], "_read_until_prompt_or_time": ["and_read"],
+    "send_input_and_read": ["and_read"], "send_and_read": ["and_read"],
+    "send_input": ["commands", "configs", "priv"], "_send_command": ["commands"], "send_command": ["commands"],
+    "send_commands": ["commands"], "get_prompt": ["prompt", "priv"], "read": FAMILIES, "_channel_lock": FAMILIES,
+    "send_config": ["configs"], "send_configs": ["configs"], "_abort_config": ["configs"],
+    "_acquire_appropriate_privilege_level": ["priv", "configs", "interactive"], "_escalate": ["priv"], "_deescalate": ["priv"],
+    "acquire_priv": ["priv"], "register_configuration_session": ["priv", "configs"],
+    "open": ["lifecycle"], "close": ["lifecycle"], "__init__": ["lifecycle"], "__enter__": ["lifecycle"], "__exit__": ["lifecycle"],
+    "commandeer": ["lifecycle"],
+}
+
+
+def families_of(fn):
+    """scenario families for a twin-table function name like 'channel:Channel.send_inputs_interact'"""
+    name = fn.split(":", 1)[-1].split(".")[-1]
+    if name.endswith("_on_open") or name.endswith("_on_close"):
+        return ["lifecycle", "priv"]
+    return list(FN_FAMILY.get(name, FAMILIES))
+
+
+def gen_family_op(rng, kind, dev, family):
+    outputs = dev["outputs"]
+    cmds = list(outputs) or SHOW
+    net = kind != "generic"
+    if family == "interactive":
+        return gen_interactive(rng, kind, dev, channel_level=rng.random() < 0.3)
+    if family == "commands":
+        r = rng.random()
+        if r < 0.2:
+            return ["channel_send_input", rng.choice(cmds), {"strip_prompt": rng.random() < 0.5, "eager": rng.random() < 0.2}]
+    elif family == "and_read":
+        kw = {"read_duration": 120}
+        if rng.random() < 0.7:
+            kw["expected_outputs"] = [rng.choice(["one", "zz", "Version", "#"])]
+        if rng.random() < 0.3:
+            kw["strip_prompt"] = False
+        return ["send_and_read", rng.choice(cmds), kw]
+    elif family == "prompt":
+        return ["get_prompt"] if rng.random() < 0.6 else ["send_command", rng.choice(cmds), {}]
+    elif family == "configs" and net:
+        kw = {"stop_on_failed": True} if rng.random() < 0.4 else {}
+        if kind in ("cisco_iosxr", "juniper_junos") and rng.random() < 0.3:
+            kw["privilege_level"] = "configuration_exclusive"
+        if rng.random() < 0.3:
+            return ["send_config", "\n".join(rng.choice(CONF + ["bogus line"]) for _ in range(rng.choice([1, 2, 3]))), kw]
+        return ["send_configs", [rng.choice(CONF + ["bogus line"]) for _ in range(rng.choice([1, 2, 3]))], kw]
+    elif family == "priv" and net:
+        r = rng.random()
+        if r < 0.6:
+            return ["acquire_priv", rng.choice(PRIVS[kind])]
+        if r < 0.75 and kind in ("arista_eos", "cisco_nxos"):
+            return ["register_configuration_session", rng.choice(["s1", "mysess", "abcdefgh"])]
+        if r < 0.9:
+            return ["send_configs", [rng.choice(CONF)], {}]
+    elif family == "lifecycle":
+        return rng.choice([["close"], ["open"], ["get_prompt"]])
+    return gen_op(rng, kind, outputs)
+
+
 def gen_op(rng, kind, outputs):
     cmds = list(outputs) or SHOW
     net = kind != "generic"
@@ -272,7 +499,8 @@ def gen_op(rng, kind, outputs):
     return ["close"]
 
 
-def gen_scenario(rng, kind=None, faulty=None):
+def gen_scenario(rng, kind=None, faulty=None, family=None):
+    """family: one of FAMILIES -> most operations of the scenario come from that family"""
     kind = kind or rng.choice(PLATFORMS)
     plat = "cisco_iosxe" if kind == "network" else kind
     outputs = {}
@@ -296,7 +524,12 @@ def gen_scenario(rng, kind=None, faulty=None):
     sc = {"kind": kind, "device": dev, "driver_kwargs": kw, "policy": gen_policy(rng), "fault": None}
     ops = [["open"]]
     for _ in range(rng.choice([1, 2, 3, 4, 6])):
-        ops.append(gen_op(rng, kind, outputs))
+        if family is not None and rng.random() < 0.7:
+            ops.append(gen_family_op(rng, kind, dev, family))
+        else:
+            ops.append(gen_op(rng, kind, outputs))
+    if family is not None:
+        sc["family"] = family
     if rng.random() < 0.5:
         ops.append(["close"])
     sc["ops"] = ops
@@ -344,4 +577,27 @@ def corpus():
     out.append({"kind": "generic", "device": {"outputs": {"show clock": "12:00"}}, "driver_kwargs": {}, "policy": ["bytes", 2],
                 "fault": {"read_exc_once_at": 30, "exc": "ScrapliConnectionError"},
                 "ops": [["open"], ["send_command", "show clock", {}], ["send_command", "show clock", {}]]})
+    # interactive dialogues: the same response expected twice in a row / asked once only / hidden answer / a completion
+    # pattern that is already in the first event's output / refused answer with events still queued
+    two = {"steps": [{"q": "Clear all counters? [confirm]"}, {"q": "Really clear? [confirm]"}], "out": "done"}
+    once = {"steps": [{"q": "Clear all counters? [confirm]"}, {"q": "Really clear? [confirm]", "ask": False}], "out": "done"}
+    ev2 = [["clear counters", "[confirm]", False], ["y", "[confirm]", False], ["y", "", False]]
+    for kind, pol in (("generic", ["whole"]), ("cisco_iosxe", ["bytes", 1]), ("juniper_junos", ["random", 3, 7])):
+        for spec in (two, once):
+            for kw in ({}, {"interaction_complete_patterns": [ANY_PROMPT]},
+                       {"interaction_complete_patterns": ["clear", ANY_PROMPT]}):
+                out.append({"kind": kind, "device": {"outputs": {"show clock": "12:00"}, "dialogs": {"clear counters": spec}},
+                            "driver_kwargs": {}, "policy": pol, "fault": None, "family": "interactive",
+                            "ops": [["open"], ["send_interactive", ev2, kw], ["get_prompt"], ["send_command", "show clock", {}]]})
+    copy = {"steps": [{"q": "Address or name of remote host []?"}, {"q": "Password:", "hidden": True},
+                      {"q": "Destination filename [x]?", "ask": False}], "out": "1 file copied"}
+    evc = [["copy flash: scp:", "[]?"], ["10.0.0.9", "Password:"], ["s3cr3t", "Destination filename", True], ["x", "", False]]
+    refuse = {"steps": [{"q": "Continue? (y/n) ", "accept": ["y"]}, {"q": "Are you sure? (y/n) "}], "out": "ok", "abort_out": "% aborted"}
+    evr = [["reload", "(y/n)", False], ["n", "(y/n)", False], ["y", "", False]]
+    for kind in ("generic", "network", "arista_eos"):
+        for name, spec, evs in (("copy flash: scp:", copy, evc), ("reload", refuse, evr)):
+            for op in ("send_interactive", "channel_send_inputs_interact"):
+                out.append({"kind": kind, "device": {"outputs": {}, "dialogs": {name: spec}}, "driver_kwargs": {}, "policy": ["bytes", 2],
+                            "fault": None, "family": "interactive",
+                            "ops": [["open"], [op, evs, {"interaction_complete_patterns": [ANY_PROMPT]}], ["get_prompt"]]})
     return out
